@@ -28,6 +28,9 @@ ImplGoto(c, s, X) ==
   LET lo == At0(c.Goto, X)  hi == At0(c.Goto, X+1)
   IN IF hi - lo < 32 THEN RGoto(c, s, X) ELSE BinSearch(c, s, lo, hi)
 
+(* binary search regardless of size: equals RGoto whenever GotoSorted holds (checked per case) *)
+FGoto(c, s, X) == BinSearch(c, s, At0(c.Goto, X), At0(c.Goto, X+1))
+
 RECURSIVE LalrLookup(_, _, _)
 LalrLookup(c, a, t) == IF At0(c.Lalr, a) < 0 THEN At0(c.Lalr, a+1)
                        ELSE IF At0(c.Lalr, a) = t THEN At0(c.Lalr, a+1) ELSE LalrLookup(c, a+2, t)
@@ -48,4 +51,42 @@ RAction(c, s, t) ==
        ELSE IF v = -1 THEN (IF RGoto(c, s, t) >= 0 THEN <<"s", RGoto(c, s, t)>> ELSE <<"e">>)
        ELSE IF v = -2 THEN <<"e">>
        ELSE <<"la", v>>          \* LALR(k) chain (C07)
+
+RActionF(c, s, t) ==        \* RAction with FGoto
+  LET a == At0(c.Action, s) IN
+  IF a >= 0 THEN <<"r", a>>
+  ELSE IF a = -1 THEN (LET g == FGoto(c, s, t) IN IF g >= 0 THEN <<"s", g>> ELSE <<"e">>)
+  ELSE IF a = -2 THEN <<"e">>
+  ELSE LET v == LalrLookup(c, -3 - a, t) IN
+       IF v >= 0 THEN <<"r", v>>
+       ELSE IF v = -1 THEN (LET g == FGoto(c, s, t) IN IF g >= 0 THEN <<"s", g>> ELSE <<"e">>)
+       ELSE IF v = -2 THEN <<"e">>
+       ELSE <<"la", v>>
+
+(* ---- DisplacementEnc (optimizeTables), decoded exactly as go_parser.go.tmpl decodes it.   *)
+(* o = [DefGoto, Goto, DefAct, Action, Base, Table, Check]; nT = number of terminals.        *)
+OptRawAction(o, s, t) ==
+  LET a == At0(o.Action, s) IN
+  IF a > o.Base
+  THEN LET pos == a + t IN
+       IF pos >= 0 /\ pos < Len(o.Table) /\ At0(o.Check, pos) = t THEN At0(o.Table, pos) ELSE At0(o.DefAct, s)
+  ELSE At0(o.DefAct, s)
+OptAction(o, s, t) ==       \* <<"s", target>> | <<"r", rule>> | <<"e">>
+  LET act == OptRawAction(o, s, t) IN
+  IF act >= 0 THEN <<"r", act>> ELSE IF act < -1 THEN <<"s", -2 - act>> ELSE <<"e">>
+OptGoto(o, nT, s, A) ==
+  LET pos == At0(o.Goto, A - nT) + s IN
+  IF pos >= 0 /\ pos < Len(o.Table) /\ At0(o.Check, pos) = s THEN At0(o.Table, pos) ELSE At0(o.DefGoto, A - nT)
+
+(* reductions listed for a lookahead state and how often (for defaultReduce) *)
+RECURSIVE LalrRuleCount(_, _, _)
+LalrRuleCount(c, a, r) == IF At0(c.Lalr, a) < 0 THEN 0
+                          ELSE (IF At0(c.Lalr, a+1) = r THEN 1 ELSE 0) + LalrRuleCount(c, a+2, r)
+RECURSIVE LalrRules(_, _)
+LalrRules(c, a) == IF At0(c.Lalr, a) < 0 THEN {}
+                   ELSE (IF At0(c.Lalr, a+1) >= 0 THEN {At0(c.Lalr, a+1)} ELSE {}) \cup LalrRules(c, a+2)
+MostFrequentRules(c, s) ==
+  LET a == -3 - At0(c.Action, s)
+      rs == LalrRules(c, a)
+  IN { r \in rs : \A r2 \in rs : LalrRuleCount(c, a, r2) <= LalrRuleCount(c, a, r) }
 =============================================================================
